@@ -122,19 +122,32 @@ def graph_lemmas(ctx):
     return "ok"
 
 
-@unit("lemmas.lean[Graph.lean]", props=["C01", "C04", "C07"], assumptions=["T13 the Lean kernel is sound; the transcription of L-RANK / L-REACH / L-TRANS into the contracts' vocabulary is by hand"],
-      min_obligations=1, kind="lemma")
-def lean_lemmas(ctx):
-    """L-RANK, L-REACH, L-TRANS proved in Lean 4 + Mathlib (lemmas/Graph.lean); compiled in the thorough tier"""
-    here = os.path.dirname(os.path.dirname(os.path.abspath(__file__)))
-    path = os.path.join(here, "lemmas", "Graph.lean")
-    src = open(path).read()
-    ctx.check("Graph.lean:no-sorry-no-axiom-declarations", bool("sorry" not in src and "\naxiom " not in src))
-    if os.environ.get("UJVC_TIER") != "thorough":
-        return "quick"
-    t0 = time.time()
-    p = subprocess.run(["lean", path], capture_output=True, text=True, timeout=900, cwd=os.path.dirname(path))
-    out = (p.stdout + p.stderr).strip()
-    ctx.check("Graph.lean:accepted-by-lean(L-RANK,L-REACH,L-TRANS)", bool(p.returncode == 0 and "error" not in out), info=f"lean exit {p.returncode} in {time.time()-t0:.0f}s: {out[-800:]}",
-              backend="lean")
-    return "thorough"
+LEAN_FILES = {
+    "Graph.lean": ("L-RANK,L-REACH,L-TRANS", ["C01", "C04", "C07"]),
+    "Graph2.lean": ("L-CYCLE,L-BYPASS", ["C01", "C07", "C09"]),
+    "Count.lean": ("L-COUNT", ["C02"]),
+}
+
+
+def _lean_unit(fname, what, props):
+    def run(ctx):
+        here = os.path.dirname(os.path.dirname(os.path.abspath(__file__)))
+        path = os.path.join(here, "lemmas", fname)
+        src = open(path).read()
+        ctx.check(f"{fname}:no-sorry-no-axiom-declarations", bool("sorry" not in src and "\naxiom " not in src and "admit" not in src))
+        if os.environ.get("UJVC_TIER") != "thorough":
+            return "quick"
+        t0 = time.time()
+        p = subprocess.run(["lean", path], capture_output=True, text=True, timeout=1800, cwd=os.path.dirname(path))
+        out = (p.stdout + p.stderr).strip()
+        ctx.check(f"{fname}:accepted-by-lean({what})", bool(p.returncode == 0 and "error" not in out), info=f"lean exit {p.returncode} in {time.time()-t0:.0f}s: {out[-800:]}",
+                  backend="lean")
+        return "thorough"
+
+    run.__doc__ = f"{what} proved in Lean 4 + Mathlib (lemmas/{fname}); compiled in the thorough tier"
+    return run
+
+
+for _f, (_what, _props) in LEAN_FILES.items():
+    unit(f"lemmas.lean[{_f}]", props=_props, assumptions=["T13 the Lean kernel is sound; the transcription of the lemma statements into the contracts' vocabulary is by hand"],
+         min_obligations=1, kind="lemma")(_lean_unit(_f, _what, _props))
